@@ -259,6 +259,12 @@ func runHistory(c Case) (v vkit.Verdict) {
 			if err != nil {
 				return v.Fail("fresh NewTransform(%q, %q): %v", tt.srcTxt, tt.dstTxt, err)
 			}
+			if (ftr == nil || tt.tr == nil) && st.Pt >= len(c.Inputs[tt.src])-4 {
+				// The two references are Equal for at least one of the two builds, so NewTransform may short-cut to the
+				// identity. Identity and inverse-then-forward agree inside the usable region (to rounding) but not on the
+				// four deliberately failing inputs, which are far outside it; those are only used on real transformers.
+				continue
+			}
 			var fpan string
 			fx, fy, ferr, fpan = callT(ftr, x, y)
 			if fpan != "" {
